@@ -234,6 +234,43 @@ def run_shard(spec, acc):
             acc.violation('run-charged-for-earlier-runs', f'run {k + 1}: result {got_h!r:.200} (first run {first!r:.200}), count {o_h.get("statementCount")} vs {budget // 3} of the first run', {'history': 'same-globals-finite-budget'})
             return
         acc.count('same_globals_finite_budget_runs')
+    # ... and the other way round: ONE options object (with that finite budget) serves all runs, each run on fresh globals
+    o_shared = {'fetchFn': bare._fetch_include, 'systemPrefix': bare._FETCH_INCLUDE_PREFIX, 'maxStatements': budget}  # pylint: disable=protected-access
+    for k in range(9):
+        o_shared['globals'] = {}
+        acc.case(('same-options-finite-budget', k), True)
+        try:
+            got_h = bare_script.execute_script(bare_script.parse_script(text_h), o_shared)
+        except Exception as exc:  # pylint: disable=broad-except
+            acc.violation('run-charged-for-earlier-runs', f'run {k + 1} with the same options object (budget {budget}, one run needs {budget // 3}): {type(exc).__name__}: {exc}', {'history': 'same-options-finite-budget'})
+            return
+        if got_h != first or o_shared.get('statementCount', 0) > budget // 3:
+            acc.violation('run-charged-for-earlier-runs', f'run {k + 1} with the same options object: result {got_h!r:.200}, count {o_shared.get("statementCount")} vs {budget // 3} of the first run', {'history': 'same-options-finite-budget'})
+            return
+        acc.count('same_options_finite_budget_runs')
+    # a late include: work done before an include statement is charged once - the same work costs the same wherever the include stands,
+    # and a budget that covers the run with the include first covers it with the include last
+    pair = "arrayNew('a', 'b', 'c', 'd', 'e', 'f', 'g', 'h'), arrayNew('a', 'x', 'c', 'e', 'f', 'g', 'z', 'h', 'i')"
+    # (two include statements in both texts: adjacent include lines would merge into one statement)
+    early = f"include <diff.bare>\nzz = 1\ninclude <unittest.bare>\nd1 = diffLines({pair})\nreturn diffLines({pair})"
+    late = f"include <diff.bare>\nzz = 1\nd1 = diffLines({pair})\ninclude <unittest.bare>\nreturn diffLines({pair})"
+    runs = {}
+    for label, text_l in (('early', early), ('late', late)):
+        o_l = {'globals': {}, 'fetchFn': bare._fetch_include, 'systemPrefix': bare._FETCH_INCLUDE_PREFIX, 'maxStatements': 0}  # pylint: disable=protected-access
+        runs[label] = (bare_script.execute_script(bare_script.parse_script(text_l), o_l), o_l.get('statementCount'))
+    acc.case(('late-include',), True)
+    acc.count('late_include_checks')
+    if runs['early'] != runs['late']:
+        acc.violation('work-before-an-include-charged-twice', f'include first: count {runs["early"][1]}; include after the first diffLines call: count {runs["late"][1]} (same statements, same results: {runs["early"][0] == runs["late"][0]})', {'history': 'late-include'})
+        return
+    try:
+        o_l = {'globals': {}, 'fetchFn': bare._fetch_include, 'systemPrefix': bare._FETCH_INCLUDE_PREFIX, 'maxStatements': runs['early'][1] + 5}  # pylint: disable=protected-access
+        if bare_script.execute_script(bare_script.parse_script(late), o_l) != runs['early'][0]:
+            acc.violation('work-before-an-include-charged-twice', 'late include under a budget: another result', {'history': 'late-include'})
+            return
+    except Exception as exc:  # pylint: disable=broad-except
+        acc.violation('work-before-an-include-charged-twice', f'budget {runs["early"][1] + 5} covers the run with the include first, not with the include after the first diffLines call: {type(exc).__name__}: {exc}', {'history': 'late-include'})
+        return
     # an application that includes one of its own files first and the library afterwards (separate include statements, no
     # systemPrefix: the system include resolves like a plain one - against the includer, not against the file included before)
     src = bare._fetch_include({'url': bare._FETCH_INCLUDE_PREFIX + 'diff.bare'})  # pylint: disable=protected-access
